@@ -159,9 +159,21 @@ func createASTTypeExpr(pkg string, t types.Type, varPool *VarPool, imports map[s
 	case *types.Signature:
 		funcFields := make([]*ast.Field, 0, typ.Params().Len())
 		for i := 0; i < typ.Params().Len(); i++ {
-			expr, err := createASTTypeExpr(pkg, typ.Params().At(i).Type(), varPool, imports)
+			paramType := typ.Params().At(i).Type()
+			isVariadicParam := false
+			if typ.Variadic() && i == typ.Params().Len()-1 {
+				// The last parameter of a variadic function has type []T and is spelled ...T
+				if slice, ok := paramType.(*types.Slice); ok {
+					paramType = slice.Elem()
+					isVariadicParam = true
+				}
+			}
+			expr, err := createASTTypeExpr(pkg, paramType, varPool, imports)
 			if err != nil {
 				return nil, fmt.Errorf("param %d: %w", i, err)
+			}
+			if isVariadicParam {
+				expr = &ast.Ellipsis{Elt: expr}
 			}
 			funcFields = append(funcFields, &ast.Field{
 				Names: []*ast.Ident{ast.NewIdent(fmt.Sprintf("arg%d", i))},
